@@ -6,6 +6,7 @@
 #include <binlog/EventFilter.hpp>
 #include <binlog/EventStream.hpp>
 #include <binlog/PrettyPrinter.hpp>
+#include <binlog/TextOutputStream.hpp>
 #include <binlog/detail/SegmentedMap.hpp>
 
 #include "../bin/printers.hpp"
@@ -355,6 +356,22 @@ std::string cmdTime(const std::string& dateFmt, const binlog::ClockSync& cs, std
 
 // the loop of printEvents / printSortedEvents with per-event buffering, so that the partial text of
 // an event whose printing throws can be told apart from the complete events
+// ONE TextOutputStream, write() called once per chunk (exceptions caught per call): the text on the output and the
+// error kind of each call
+std::string cmdTextOut(const std::string& fmt, const std::string& dateFmt, const std::vector<std::string>& chunks)
+{
+  std::ostringstream out;
+  binlog::TextOutputStream tos(out, fmt, dateFmt);
+  std::string errs;
+  for (std::size_t i = 0; i < chunks.size(); ++i)
+  {
+    if (i) { errs += ','; }
+    try { tos.write(chunks[i].data(), std::streamsize(chunks[i].size())); errs += "-"; }
+    catch (const std::exception& ex) { errs += errKind(ex); }
+  }
+  return "text=" + hex(out.str()) + " errs=" + errs;
+}
+
 std::string cmdBread(bool sorted, const std::string& fmt, const std::string& dateFmt, const std::string& file)
 {
   std::istringstream in(file, std::ios_base::in | std::ios_base::binary);
@@ -407,6 +424,19 @@ int main()
       {
         std::string f, d, b;
         if (unhex(w[2], f) && unhex(w[3], d) && unhex(w[4], b)) { r = cmdBread(w[1] == "1", f, d, b); }
+      }
+      else if (w.size() == 4 && w[0] == "textout")
+      {
+        std::string f, d;
+        std::vector<std::string> chunks;
+        bool okc = unhex(w[1], f) && unhex(w[2], d);
+        for (const std::string& h : split(w[3], ','))
+        {
+          std::string c;
+          if (h != "-" && ! unhex(h, c)) { okc = false; }
+          chunks.push_back(c);
+        }
+        if (okc) { r = cmdTextOut(f, d, chunks); }
       }
       else if (w.size() == 3 && w[0] == "print") { std::string b; if (unhex(w[2], b)) { r = cmdPrint(w[1] == "1", b); } }
     }
